@@ -327,6 +327,7 @@ type Result struct {
 	SwitchPairs      map[[2]int16]int
 	SiteHits         map[int]int
 	BlockedHandovers int
+	BlockedStates    map[string]int // runtime state of the goroutines that were classed blocked outside the scheduler
 	Deadlock         bool
 	Capped           bool
 }
@@ -344,7 +345,7 @@ func hmix(h uint64, v uint64) uint64 {
 // Run executes the bodies as tasks under the scheduler and returns when all of
 // them have finished (or a deadlock was declared).
 func Run(cfg Config, bodies []func(t *Task)) *Result {
-	res := &Result{SwitchPairs: map[[2]int16]int{}, SiteHits: map[int]int{}}
+	res := &Result{SwitchPairs: map[[2]int16]int{}, SiteHits: map[int]int{}, BlockedStates: map[string]int{}}
 	n := len(bodies)
 	tasks := make([]*Task, n)
 	done := make(chan struct{}, n)
@@ -443,10 +444,11 @@ func Run(cfg Config, bodies []func(t *Task)) *Result {
 				// Slow or stuck? A goroutine the runtime still reports as running or runnable is
 				// only slow (the machine is starved): keep waiting, in slices, for up to ten
 				// seconds. Anything else is blocked on something outside the simulator.
+				st := ""
 				for slice := 0; slice < 100; slice++ {
-					st := goroutineState(getGoid(t))
-					if st != "running" && st != "runnable" && st != "syscall" {
-						break // (a task inside a file-system call of the static engine is in "syscall")
+					st = goroutineState(getGoid(t))
+					if st != "running" && st != "runnable" && st != "syscall" && !strings.HasPrefix(st, "GC") {
+						break // ("syscall": a file-system call of the static engine; "GC ...": held up by the collector)
 					}
 					timer.Reset(tDetect)
 					select {
@@ -455,6 +457,7 @@ func Run(cfg Config, bodies []func(t *Task)) *Result {
 					case <-timer.C:
 					}
 				}
+				res.BlockedStates[st]++
 			}
 			if t.state != 1 {
 				res.BlockedHandovers++
